@@ -41,7 +41,7 @@ def run(c):
         c.sample({"request": k, "impl": v[:500]})
     c.cov["search"] = "Lean monitor checkCall on the real glue trees (call/return counts, canonical arguments, canonical results, parameter-record frees)"
     c.cov["partial_obligations"] = [
-        "proved glue theorems: flat/memory-free import and export, export with indirect parameters (any types; record freed once with canonical layout), import with a return area (any result type), import with indirect parameters (any types, no result), async export (flat) with exactly one task.return. Open as theorems (enforced by the checkCall monitor on the real trees): export-side return areas, flat list-bearing parameters, the remaining async combinations, totality of call and its final empty-stack assertion ('no value unconsumed')",
+        "proved glue theorems: flat/memory-free import and export, export with indirect parameters (any types; record freed once with canonical layout), import with a return area (any result type), import with indirect parameters (any types, no result), async export (flat) with exactly one task.return. Open as theorems (enforced by the checkCall monitor on the real trees): export-side return areas, flat list-bearing parameters, the remaining async combinations; existence of the glue incl. its closing stack assertions ('no value unconsumed') IS proved for every function: glue_exists_and_leaves_no_value_unconsumed",
     ]
     c.assumptions += ["wit-parser's wasm_signature is external: modelled (Abi.wasmSignature), compared on every function, and proved equal to the spec's flatten_functype",
                       "values cross CallWasm/CallInterface through scripted callee results (the callee side is the spec)"]
